@@ -639,6 +639,8 @@ def r3_ranges(program, rep):
                    "equal generality may change places and a later entry "
                    "can take keys from an earlier one")
     rep.guard(["C04-R3", "C04-R4", "C04-R5"], _apply_rules, program, rep)
+    rep.guard("C04-R3", _refine_order, program, rep)
+    rep.guard("C04-R3", _downcheck_rescan, program, rep)
     rep.floor("C04-R3", 5)
 
 
@@ -720,6 +722,122 @@ def r4_aliases(program, rep):
     rep.check(okg, "C04-R4", qual(gm), "only entries with identical routes "
               "are merged", construct="merge candidates share route",
               node=gm)
+
+
+def _refine_order(program, rep):
+    """_refine_merge: what it returns, by cases.  When the up-check changed
+    a merge that is still good enough, the value returned is the result of a
+    down-check of the up-checked merge (the up-check may have moved the
+    insertion point above entries the first down-check never looked at)."""
+    fn = program.get(OC + ":_refine_merge")
+    inst = qual(fn)
+    T = Terms(fn)
+    ps = formals(fn)
+    MERGE, MIN = _P(ps[0]), _P(ps[2])
+    dcs = [c for c in ast.walk(fn) if isinstance(c, ast.Call) and
+           call_name(c)[0] == "_refine_downcheck"]
+    ups = [c for c in ast.walk(fn) if isinstance(c, ast.Call) and
+           call_name(c)[0] == "_refine_upcheck"]
+    if len(dcs) != 2 or len(ups) != 1:
+        raise AnalysisError("_refine_merge: one up-check between two "
+                            "down-checks expected")
+    terms = [(c, T.term(c, T.cfg.node_containing(c))) for c in dcs]
+    first = [t for c, t in terms if t[2][:1] == (MERGE,)]
+    UP = T.term(ups[0], T.cfg.node_containing(ups[0]))
+    if len(first) != 1 or UP[2][:1] != (first[0],):
+        raise AnalysisError("_refine_merge: the first down-check is not "
+                            "applied to the merge given / the up-check not "
+                            "to its result")
+    DC1 = first[0]
+    M_UP, CH = ("comp", UP, 0), ("comp", UP, 1)
+    second = [t for c, t in terms if t is not DC1]
+    DC2 = second[0]
+    okarg = DC2[2][:1] == (M_UP,) and DC1[2][1:] == DC2[2][1:]
+    g1 = mk_cmp("Lt", MIN, ("attr", DC1, "goodness"))
+    g2 = mk_cmp("Lt", MIN, ("attr", M_UP, "goodness"))
+    rets = [r for r in returns_of(fn) if r.value is not None]
+
+    def returned(*hyps):
+        H = T.under(*hyps)
+        out = []
+        for r in rets:
+            n = T.cfg.node_of(r)
+            if H.live(n):
+                out.extend(plain(x) for x in alternatives(H.term(r.value,
+                                                                 n)))
+        return out
+    again = returned((g1, True), (CH, True), (g2, True))
+    kept = returned((g1, True), (CH, False))
+    poor = returned((g1, False))
+    ok = okarg and again == [plain(DC2)] and kept == [plain(M_UP)] and \
+        poor == [plain(DC1)]
+    rep.check(ok, "C04-R3", inst, "a merge changed by the up-check and "
+              "still good enough is down-checked again before it is "
+              "returned; otherwise the up-checked (unchanged) or the "
+              "discarded merge is returned as it is",
+              construct="refine order", node=fn,
+              fail="after the up-check removed entries from a merge that "
+                   "is still good enough, _refine_merge returns %s instead "
+                   "of the down-check of the up-checked merge: the merged "
+                   "entry can land above an entry it then hides" % (
+                       [show(x)[:60] for x in again],))
+
+
+def _downcheck_rescan(program, rep):
+    """Every round of the down-check looks at the entries below the
+    insertion point of the merge as it is in that round (removing entries
+    from a merge can move its insertion point up, past entries no earlier
+    round has looked at)."""
+    fn = program.get(OC + ":_refine_downcheck")
+    inst = qual(fn)
+    T = Terms(fn)
+    loops = [w for w in ast.walk(fn) if isinstance(w, ast.While)]
+    scans = [c for c in ast.walk(fn) if isinstance(c, ast.Call) and
+             call_name(c)[0] == "_get_covered_keys_and_masks"]
+    if len(loops) != 1 or not scans:
+        raise AnalysisError("_refine_downcheck: the refinement loop / its "
+                            "scan of the covered entries was not found")
+    w = loops[0]
+    ok = True
+    why = ""
+    for c in scans:
+        if not _own_within(c, w):
+            ok = False
+            why = "the scan at line %d is made once, before the loop" % \
+                c.lineno
+            continue
+        n = T.cfg.node_containing(c)
+        a0 = T.term(c.args[0], n) if c.args else ("?",)
+        cur = T.term(ast.Name(id=formals(fn)[0], ctx=ast.Load()),
+                     T.cfg.loop_head[id(w)])
+        if a0 != cur or a0[0] != "mu":
+            ok = False
+            why = "the scan at line %d is not given the merge of the " \
+                "current round" % c.lineno
+    # the list examined in a round is that round's scan (not a list carried
+    # over from an earlier round)
+    fors = [lp for lp in ast.walk(w) if isinstance(lp, ast.For)]
+    used = False
+    for lp in fors:
+        it = T.term(lp.iter, T.cfg.loop_head[id(lp)])
+        for st_ in subterms(it):
+            if st_[0] in ("call", "callv") and st_[1] == (
+                    "global", "_get_covered_keys_and_masks"):
+                used = True
+        if it[0] == "mu":
+            for alt in alternatives(it):
+                if any(x == ("rec",) for x in subterms(alt)):
+                    ok = False
+                    why = "the entries examined in a round are derived " \
+                        "from the previous round's list"
+    rep.check(ok and used, "C04-R3", inst, "each round of the down-check "
+              "scans the table below the insertion point of the merge as it "
+              "is in that round", construct="down-check rescan", node=fn,
+              fail="the down-check does not re-scan the table for the "
+                   "current merge in every round (%s): entries that come "
+                   "to lie below the insertion point after the merge shrank "
+                   "are never checked, and the merged entry can hide them" %
+                   (why or "no scan feeds the round's examination"))
 
 
 def _apply_rules(program, rep):
